@@ -28,7 +28,7 @@ From ClapModel Require Import Complete.EngineAccept Complete.EngineFuel Complete
 From ClapModel Require ParseProofs.Chain ParseProofs.ActionsTop.
 From ClapModel Require Import Complete.EngineLine Complete.EnginePositional.
 From ClapModel Require ParseProofs.ChainWide.
-From ClapModel Require Import Complete.EngineItems Complete.EngineWide Complete.EngineHidden Complete.EngineOrder Complete.EngineTerm.
+From ClapModel Require Import Complete.EngineItems Complete.EngineWide Complete.EngineHidden Complete.EngineOrder Complete.EngineOptState Complete.EngineTerm.
 From Coq Require Import Permutation Sorted.
 From ClapModel Require Gen.EngineSites.
 From Coq Require Import ZArith.
@@ -577,7 +577,9 @@ Print Assumptions C18_escape_only_positionals_refuted.
     [item18]: C09's option items ([Chain.item]: `--flag`, `--opt=v`, `--opt v`, `-abc`, `-ov`, `-o v`) plus `-o=v` and
     multi-valued options `--opt v1 .. vk` / `-o v1 .. vk` with [k] = the maximum of the range, the values plain words that
     are neither subcommand names nor the option's terminator ([value_tok]), and (round 5) `--opt v1 .. vj ;` / `-o v1 .. vj ;`
-    with [j] below the maximum followed by the option's value TERMINATOR.  [pitems18 c pos pre F pos']: items, values
+    with [j] below the maximum followed by the option's value TERMINATOR, or - on a level without hyphen-accepting arguments -
+    by another item ([i18_long_partial] / [i18_short_partial]: a partially filled occurrence ends at a word that looks like an
+    option).  [pitems18 c pos pre F pos']: items, values
     of single-valued positionals and (round 5) the terminator of the positional at the counter, alone ([p18_term]) or behind
     [k] values of that multi-valued positional ([p18_multi_term], [k] below the engine's [eng_num_args]); [pos]/[pos'] the
     positional counter before and after.
@@ -670,6 +672,20 @@ Theorem C18_terminator_step_agreement : forall pc cur t, elevel pc cur -> ChainW
      (do st' <- term_fn pc a st; parse_loop pc rest (Chain.lsV (pos + 1) true) st')).
 Proof. exact terminator_step_agreement. Qed.
 Print Assumptions C18_terminator_step_agreement.
+
+(** A WORD THAT LOOKS LIKE AN OPTION WHILE AN OPTION IS STILL COLLECTING VALUES (partially filled occurrence): both machines
+    stand in "option [a] pending" with any number of values; no argument of the level accepts hyphen values or negative
+    numbers ([hyphen_free]); the word is lexed as an exact long key or as a non-empty short cluster ([dash_tok]).  BOTH handle it
+    exactly as between arguments - the pending occurrence ends.  (Whether it had its minimum is decided by the parser's flush in
+    the next [react]: TooFewValues-class errors, never an "unknown" one; [EngineTerm.PartialLine].)  With it the class [item18]
+    contains `--opt v1 .. vj <item>` / `-o v1 .. vj <item>` for [j] below the maximum ([i18_long_partial], [i18_short_partial]). *)
+Theorem C18_pending_option_dash_agreement : forall pc cur tok a, elevel pc cur -> hyphen_free pc ->
+  find_arg pc (a_id a) = Some a -> dash_tok pc tok ->
+  (forall k pi evaf, shadow_step tok cur pi false (Opt a k) evaf = shadow_step tok cur pi false ValueDone evaf) /\
+  (forall rest pos vaf st, fs_skip st = 0 ->
+     parse_loop pc (tok :: rest) (mkL (PSOpt (a_id a)) pos vaf false) st = parse_loop pc (tok :: rest) (Chain.lsV pos vaf) st).
+Proof. exact pending_option_dash_agreement. Qed.
+Print Assumptions C18_pending_option_dash_agreement.
 
 (** the engine's positional lookup IS the parser's key-map lookup *)
 Theorem C18_find_pos_is_get_pos : forall c n, assert_app c = true -> find_pos c n = get_pos c n.
